@@ -662,6 +662,210 @@ ModelPtr wrap(const EntityPtr &e, Loc::Kind kind)
     return m;
 }
 
+// ------------------------------------------------------------------------------------------------ foreign reset variables
+
+std::string sortedLinesOf(const std::string &text)
+{
+    std::vector<std::string> ls;
+    std::istringstream is(text);
+    std::string l;
+    while (std::getline(is, l)) {
+        ls.push_back(l);
+    }
+    std::sort(ls.begin(), ls.end());
+    std::string o;
+    for (const auto &x : ls) {
+        o += x + "\n";
+    }
+    return o;
+}
+
+// What "faithful" means here was read off the unchanged library: Reset::clone() deep-copies both variables, and
+// Component::clone() re-targets a cloned reset only at variables found in the reset's own component; a variable found nowhere
+// there stays the parentless deep copy. So the clone never refers to the original's foreign variable object (nothing is shared),
+// it prints the same variable= / test_variable= names and equals() (which compares a reset's variables by value) holds. The dump
+// therefore describes a foreign variable by value ("detached" + name, id, initial value, interface, held units), for both sides.
+// Not demanded: that a cloned *model* re-targets the reset at the clone's counterpart of a variable of another component
+// (nothing in the statement promises it; the serialisation is the same either way).
+void foreignResetVariables(Src &src, Case &c, const ModelSpec &spec, const std::function<Built()> &construct, bool probeKnown, bool unlinked)
+{
+    const unsigned plan = static_cast<unsigned>(src.below(4)); // 0 (also: tape exhausted) = no sub-case
+    if (plan == 0 || spec.comps.empty()) {
+        return;
+    }
+    Built t = construct();
+    std::vector<VariablePtr> keepAlive;
+    // the reset: an existing one, or a new one in a tape-chosen component
+    std::vector<std::pair<size_t, size_t>> existing;
+    for (size_t ci = 0; ci < t.resets.size(); ++ci) {
+        for (size_t ri = 0; ri < t.resets[ci].size(); ++ri) {
+            existing.emplace_back(ci, ri);
+        }
+    }
+    size_t rc = 0;
+    ResetPtr reset;
+    if (!existing.empty() && src.below(3) != 0) {
+        auto p = existing[src.below(existing.size())];
+        rc = p.first;
+        reset = t.resets[p.first][p.second];
+    } else {
+        rc = src.below(t.comps.size());
+        reset = Reset::create();
+        reset->setOrder(50);
+        reset->setTestValue("<math xmlns=\"http://www.w3.org/1998/Math/MathML\"><ci>t</ci></math>");
+        reset->setResetValue("<math xmlns=\"http://www.w3.org/1998/Math/MathML\"><ci>r</ci></math>");
+        if (!t.vars[rc].empty()) {
+            reset->setVariable(t.vars[rc][0]);
+            reset->setTestVariable(t.vars[rc][t.vars[rc].size() - 1]);
+        }
+        t.comps[rc]->addReset(reset);
+    }
+    std::vector<VariablePtr> elsewhere;
+    for (size_t ci = 0; ci < t.vars.size(); ++ci) {
+        if (ci != rc) {
+            elsewhere.insert(elsewhere.end(), t.vars[ci].begin(), t.vars[ci].end());
+        }
+    }
+    std::vector<VariablePtr> foreignOnes;
+    std::string what;
+    auto choose = [&](const char *role, unsigned how) -> int {
+        // 0 keep, 1 variable of another component, 2 parentless variable, 3 unset
+        if (how == 1 && elsewhere.empty()) {
+            how = 2;
+        }
+        VariablePtr v;
+        if (how == 1) {
+            v = elsewhere[src.below(elsewhere.size())];
+            c.cls("foreign-reset-variable:other-component");
+        } else if (how == 2) {
+            v = Variable::create(std::string("orphan_") + role);
+            v->setUnits("second");
+            if (src.flip(50)) {
+                v->setId(std::string("orphan_id_") + role);
+                v->setInitialValue("3");
+                v->setInterfaceType("public");
+            }
+            keepAlive.push_back(v);
+            c.cls("foreign-reset-variable:parentless");
+        } else if (how == 3) {
+            c.cls("foreign-reset-variable:unset");
+        }
+        if (how != 0) {
+            if (std::string(role) == "variable") {
+                reset->setVariable(v);
+            } else {
+                reset->setTestVariable(v);
+            }
+            if (v != nullptr) {
+                foreignOnes.push_back(v);
+            }
+            what += std::string(" ") + role + (how == 1 ? " := variable '" + v->name() + "' of another component;" : how == 2 ? " := parentless variable;" : " := none;");
+        }
+        return static_cast<int>(how);
+    };
+    unsigned howVar = static_cast<unsigned>(src.below(4));
+    unsigned howTest = static_cast<unsigned>(src.below(4));
+    if (howVar == 0 && howTest == 0) {
+        howTest = 1;
+    }
+    choose("variable", howVar);
+    choose("test_variable", howTest);
+
+    // the cloned entity: the component that owns the reset, one of its ancestors, or the whole model
+    const bool modelLevel = src.below(2) == 1;
+    EntityPtr entity = t.model;
+    Loc::Kind kind = Loc::MODEL;
+    if (!modelLevel) {
+        ComponentPtr comp = t.comps[rc];
+        size_t up = src.below(3);
+        while (up-- > 0) {
+            auto pc = std::dynamic_pointer_cast<Component>(comp->parent());
+            if (pc == nullptr) {
+                break;
+            }
+            comp = pc;
+        }
+        entity = comp;
+        kind = Loc::COMP;
+    }
+    const std::string type = kindName(kind);
+    c.cls(std::string("foreign-reset-variable:") + (modelLevel ? "Model::clone" : "Component::clone"));
+    c.count("foreign_reset_subcases");
+    c.text += "\nsub-case: reset of component #" + std::to_string(rc) + " gets" + what + " then " + (modelLevel ? "the model" : "component '" + std::dynamic_pointer_cast<Component>(entity)->name() + "'") + " is cloned";
+    c.hash = hashStr(c.text);
+
+    const std::string od = xdump(entity, kind);
+    EntityPtr clone = cloneOf(entity, kind);
+    VP_CHECK(c, clone != nullptr, "C11.null|" + type, "clone() returned nullptr");
+    VP_CHECK(c, xdump(entity, kind) == od, "C11.input-modified|" + type, "clone() changed the original: " << firstDiff(od, xdump(entity, kind)));
+    if (auto pe = std::dynamic_pointer_cast<ParentedEntity>(clone)) {
+        VP_CHECK(c, pe->parent() == nullptr, "C11.parent|" + type, "the clone has a parent");
+    }
+    repairKnown(entity, clone, kind, !probeKnown);
+    const std::string cd = xdump(clone, kind);
+    if (cd != od) {
+        std::string lines;
+        std::string locn = localise(od, cd, &lines);
+        bool listed = locn == "reset-order-flag" || locn == "component-encapsulation-id" || locn == "equivalence-ids";
+        if (kind == Loc::MODEL && unlinked && locn == "variable-held-units") {
+            c.fail("C11.equals|model:relinked-variable-units", "the clone's variable holds another units definition than the original's:\n" + lines);
+            return;
+        }
+        c.fail("C11.faithful|" + (listed ? locn : type + ":" + locn), "the clone's dump differs from the original's (reset with a variable outside its component):\n" + lines);
+        return;
+    }
+    {
+        bool oc = entity->equals(clone), co = clone->equals(entity);
+        VP_CHECK(c, oc && co, "C11.equals|" + type, "original.equals(clone)=" << oc << " clone.equals(original)=" << co << " (reset with a variable outside its component)");
+    }
+    // nothing shared: in particular the clone must not refer to the original's foreign variable object
+    std::vector<Handle> cloneHandles = collect(clone, kind);
+    {
+        std::map<const Entity *, std::string> mine;
+        for (const auto &h : collect(t.model, Loc::MODEL)) {
+            mine[h.e.get()] = h.kind;
+        }
+        for (const auto &h : collect(entity, kind)) {
+            mine[h.e.get()] = h.kind;
+        }
+        for (const auto &h : cloneHandles) {
+            auto it = mine.find(h.e.get());
+            if (it != mine.end() && !(h.kind == "ImportSource" && !probeKnown)) {
+                c.fail("C11.independent|shared:" + h.kind, "the clone and the original graph share one " + h.kind + " object (" + it->second + " in the original)");
+                return;
+            }
+        }
+    }
+    // changing the foreign variable on the original side leaves the clone alone, and the other way round
+    for (const auto &v : foreignOnes) {
+        v->setName(v->name() + "_renamed");
+    }
+    VP_CHECK(c, xdump(clone, kind) == cd, "C11.independent|clone-changed:ResetVariable::setName", "renaming the original reset's foreign variable changed the clone: " << firstDiff(cd, xdump(clone, kind)));
+    const std::string od2 = xdump(entity, kind);
+    for (const auto &h : cloneHandles) {
+        if (h.kind == "ResetVariable") {
+            std::dynamic_pointer_cast<Variable>(h.e)->setInitialValue("42");
+        }
+    }
+    VP_CHECK(c, xdump(entity, kind) == od2, "C11.independent|original-changed:ResetVariable::setInitialValue", "changing the cloned reset's variable changed the original: " << firstDiff(od2, xdump(entity, kind)));
+
+    // Printer (fresh pair, because of the renames above; wrapping moves the component out of its model)
+    {
+        EntityPtr pc = cloneOf(entity, kind);
+        repairKnown(entity, pc, kind, !probeKnown);
+        if (kind == Loc::COMP) {
+            detach(entity, kind);
+            dropEquivalences(std::dynamic_pointer_cast<Component>(entity));
+        }
+        ModelPtr wo = wrap(entity, kind), wc = wrap(pc, kind);
+        auto printer = Printer::create();
+        std::string po = sortedLinesOf(printer->printModel(wo));
+        std::string pcs = sortedLinesOf(printer->printModel(wc));
+        VP_CHECK(c, po == pcs, "C11.faithful|print:" + type, "Printer output of original and clone differ (lines sorted; reset with a variable outside its component): " << firstDiff(po, pcs));
+        c.count("printed_pairs");
+    }
+}
+
 // ------------------------------------------------------------------------------------------------ the predicate
 
 void run(Src &mainSrc, Case &c)
@@ -971,6 +1175,11 @@ void run(Src &mainSrc, Case &c)
         }
         c.count("printed_pairs");
     }
+
+    // ---- appended sub-case: resets whose variable / test variable is NOT a variable of the reset's own component
+    // (another component's variable, a parentless variable, or none). Such resets exist only through the API. The choices
+    // are read after everything above, so tapes recorded before this sub-case existed replay exactly as they did.
+    foreignResetVariables(mainSrc, c, spec, construct, probeKnown, !unlinked.empty());
 }
 
 } // namespace
